@@ -34,22 +34,26 @@ the clock period; a pulse occupies exactly its duration (which is at least the
 minimum duration); a delay or a non-zero retarget lasts at least the minimum
 duration; targets only change at target instructions. -/
 theorem timeline_inv (dev : Device) (nQ : Nat) (hd : DevOk dev) (s : SeqState)
-    (hr : Reach dev nQ s) : ∀ c ∈ s.chans, ChanInv c := by
+    (hr : Reach dev nQ s) : ∀ c ∈ s.chans, ChanInv dev.maxSeqDur c := by
   obtain ⟨ops, rfl⟩ := hr
   have h0 : SeqInv (SeqState.init dev nQ) := by
     intro c hc; simp [SeqState.init] at hc
-  exact (run_SG (s := SeqState.init dev nQ) hd h0 ops).1
+  have h := run_SG (s := SeqState.init dev nQ) hd h0 ops
+  intro c hc
+  have := h.1 c hc
+  rw [h.2.1] at this
+  exact this
 
 /-- The invariant in index form (forward order of the instruction list). -/
-theorem timeline_tiles {c : ChanState} (h : ChanInv c) :
+theorem timeline_tiles {ms : Option Nat} {c : ChanState} (h : ChanInv ms c) :
     (∀ (h0 : 0 < c.slots.length), InitSlot c.slots[0]) ∧
     ∀ (i : Nat) (hi : i + 1 < c.slots.length),
-      SlotOk c.cfg (c.slots[i]'(by omega)) (c.slots[i + 1]) := by
+      SlotOk (c.ctx ms) (c.slots[i]'(by omega)) (c.slots[i + 1]) := by
   obtain ⟨_, hinv⟩ := h
   -- general statement on a reversed list
-  have key : ∀ (r : List Slot), InvR c.cfg r →
+  have key : ∀ (r : List Slot), InvR (c.ctx ms) r →
       (∀ (h0 : 0 < r.length), InitSlot (r[r.length - 1]'(by omega))) ∧
-      ∀ (j : Nat) (hj : j + 1 < r.length), SlotOk c.cfg (r[j + 1]) (r[j]'(by omega)) := by
+      ∀ (j : Nat) (hj : j + 1 < r.length), SlotOk (c.ctx ms) (r[j + 1]) (r[j]'(by omega)) := by
     intro r
     induction r with
     | nil => intro _; exact ⟨fun h0 => absurd h0 (by simp), fun j hj => absurd hj (by simp)⟩
@@ -81,7 +85,7 @@ theorem timeline_tiles {c : ChanState} (h : ChanInv c) :
     simpa [e1, e2] using this
 
 /-- Every boundary is a non-negative multiple of the clock period. -/
-theorem boundaries_clock_aligned {c : ChanState} (h : ChanInv c) :
+theorem boundaries_clock_aligned {ms : Option Nat} {c : ChanState} (h : ChanInv ms c) :
     ∀ (i : Nat) (hi : i < c.slots.length), (c.cfg.clock : Int) ∣ c.slots[i].tf ∧ 0 ≤ c.slots[i].tf := by
   obtain ⟨t0, t1⟩ := timeline_tiles h
   intro i
@@ -104,7 +108,7 @@ theorem append_only (s : SeqState) (hd : DevOk s.dev) (hi : SeqInv s) (op : Op) 
       ∃ c', (stepRaw s op).st.chans[i]? = some c' ∧ c'.name = c.name ∧ c.slots <+: c'.slots := by
   intro i c hc
   obtain ⟨c', h1, h2⟩ := (stepRaw_RG hd hi op).2.2.2 i c hc
-  exact ⟨c', h1, h2.2.1, h2.2.2⟩
+  exact ⟨c', h1, h2.2.1, h2.2.2.1⟩
 
 /-- The same over whole histories. -/
 theorem append_only_run (s : SeqState) (hd : DevOk s.dev) (hi : SeqInv s) (ops : List Op) :
@@ -112,7 +116,7 @@ theorem append_only_run (s : SeqState) (hd : DevOk s.dev) (hi : SeqInv s) (ops :
       ∃ c', (run s ops).chans[i]? = some c' ∧ c'.name = c.name ∧ c.slots <+: c'.slots := by
   intro i c hc
   obtain ⟨c', h1, h2⟩ := (run_SG hd hi ops).2.2.2 i c hc
-  exact ⟨c', h1, h2.2.1, h2.2.2⟩
+  exact ⟨c', h1, h2.2.1, h2.2.2.1⟩
 
 /-- The reported duration of a channel is the end of its last instruction. -/
 theorem duration_eq_last_tf (c : ChanState) (last : Slot) (h : c.last = .ok last) :
